@@ -40,6 +40,12 @@ structure Cfg where
   limit : Nat
   /-- `maxTimeSkew.Nanoseconds()` -/
   maxSkew : Nat
+  /-- does `VerifyRemoteChunk` guard the `Cert == nil` case of an already pending chunk
+  (`fixes/C36-verify-remote-chunk-nil-cert.patch`)? Probed from the running code. -/
+  nilCertGuard : Bool := false
+  /-- does `ChunkSignatureRequestVerifier.Verify` compare the message to be signed with the
+  justification chunk (`fixes/C37-verify-signed-message-matches-chunk.*.patch`)? Probed. -/
+  checksMessage : Bool := false
 
 /-! ## `internal/emap` as a set with expiry -/
 
@@ -128,7 +134,7 @@ inductive VR where
 def verifyRemote (cfg : Cfg) (s : Storage) (i : Nat) : Storage × VR :=
   match s.pending.find? (fun e => e.1 == i) with
   | some (_, some _) => (s, .known)
-  | some (_, none) => (s, .panic)
+  | some (_, none) => if cfg.nilCertGuard then (s, .known) else (s, .panic)
   | none =>
     match verifyChunk cfg s.vmin i with
     | some e => (s, .err e)
@@ -177,6 +183,26 @@ def getBytes (cfg : Cfg) (s : Storage) (expiry i : Nat) : Bool :=
 /-- `CheckRateLimit` passes -/
 def rateOk (cfg : Cfg) (s : Storage) (i : Nat) : Bool :=
   !((cfg.U i).size + s.sizes (cfg.U i).producer > cfg.limit)
+
+inductive SigOut where
+  | signed | refused | panic
+  deriving Repr, DecidableEq
+
+/-- the acp118 signature-request handler with `ChunkSignatureRequestVerifier.Verify`: a request
+to sign the reference `(refId, refExpiry)` with chunk `j` as justification. The unrepaired
+verifier ignores the message (`_ *warp.UnsignedMessage`): it verifies, rate-limits and stores
+the justification chunk and the handler then signs whatever message it was given. -/
+def signReq (cfg : Cfg) (s : Storage) (refId refExpiry j : Nat) : Storage × SigOut :=
+  if cfg.checksMessage && !(refId == j && refExpiry == (cfg.U j).expiry) then (s, .refused)
+  else match verifyChunk cfg s.vmin j with
+    | some _ => (s, .refused)
+    | none =>
+      if !rateOk cfg s j then (s, .refused)
+      else match verifyRemote cfg s j with
+        | (s', .stored) => (s', .signed)
+        | (s', .known) => (s', .signed)
+        | (s', .panic) => (s', .panic)
+        | (s', .err _) => (s', .refused)
 
 /-- `NewChunkStorage` on the same db (`init` scans the pending prefix); the verifier object
 is the caller's and keeps its `min`. Certificates are not persisted. -/
